@@ -105,7 +105,10 @@ impl Ssh {
                                 }
                             }
                         } else {
-                            // TODO: what should we do if it's None?
+                            // the channel has been closed (by the peer, or because the connection
+                            // was lost): stop, so that the receiving side sees the queue close
+                            tracing::info!("ssh channel closed, hanging up");
+                            break;
                         }
                     }
                 }
